@@ -387,6 +387,13 @@ func (u *Unit) global(o *types.Var, env *Env) Value {
 	}
 	name := "g_" + o.Name()
 	u.D.Once("const:"+name, fmt.Sprintf("(declare-const %s %s)", name, s))
+	if s == SVal && o.Pkg() != nil && !strings.Contains(o.Pkg().Path(), "TeaEntityLab") {
+		// exported interface-typed variables of the standard library (http.DefaultTransport, ...) are not nil
+		env.assume(Not(u.untyped(Term{name, s})))
+		u.D.Fun("uf_libval", SBool, SVal)
+		env.assume(App("uf_libval", SBool, Term{name, s}))
+		u.assumeUsed("library variable " + o.Pkg().Name() + "." + o.Name() + " is non-nil and is not a value created by this module")
+	}
 	return Value{Term{name, s}, o.Type()}
 }
 
@@ -484,7 +491,9 @@ func (u *Unit) maybeStruct(t types.Type) *StructInfo {
 		return nil
 	}
 	if n.Obj().Pkg() != nil && (isOpaquePkg(n.Obj().Pkg().Path()) || n.Obj().Pkg().Path() == "reflect") {
-		return nil
+		if !(n.Obj().Pkg().Path() == "net/http" && n.Obj().Name() == "Client") {
+			return nil
+		}
 	}
 	return u.structInfo(n)
 }
@@ -834,8 +843,13 @@ func (u *Unit) box(v Value) Value {
 		x := u.D.Bound("x", v.Sort)
 		u.D.Axiom("unbox-box:"+string(v.Sort), Forall([]Term{x}, Same(App(un, v.Sort, App(bn, SVal, x)), x), []Term{App(bn, SVal, x)}).S)
 	} else {
-		// ground instance: unbox(box(t)) = t
+		// ground instance: unbox(box(t)) = t; a boxed concrete value is never the nil interface, nor a library singleton
 		u.D.Axiom("unbox-box:"+b.S, Same(App(un, v.Sort, b), v.Term).S)
+		u.D.Fun("untyped", SBool, SVal)
+		u.D.Axiom("untyped-nil", "(untyped nil_Val)")
+		u.D.Axiom("box-typed:"+b.S, Not(App("untyped", SBool, b)).S)
+		u.D.Fun("uf_libval", SBool, SVal)
+		u.D.Axiom("box-notlib:"+b.S, Not(App("uf_libval", SBool, b)).S)
 	}
 	return Value{b, v.Ty}
 }
@@ -925,6 +939,13 @@ func (u *Unit) typeAssert(env *Env, x Value, ty types.Type) (Term, Value) {
 func (u *Unit) untyped(v Term) Term {
 	u.D.Fun("untyped", SBool, SVal)
 	u.D.Axiom("untyped-nil", "(untyped nil_Val)")
+	// the nil interface value is unique
+	if strings.Contains(v.S, "?") {
+		x := u.D.Bound("x", SVal)
+		u.D.Axiom("untyped-unique", Forall([]Term{x}, Imp(App("untyped", SBool, x), Same(x, Term{"nil_Val", SVal})), []Term{App("untyped", SBool, x)}).S)
+	} else if v.S != "nil_Val" {
+		u.D.Axiom("untyped-unique:"+v.S, Imp(App("untyped", SBool, v), Same(v, Term{"nil_Val", SVal})).S)
+	}
 	return App("untyped", SBool, v)
 }
 
